@@ -170,7 +170,18 @@ func c18ReadFaults(c *fw.Ctx, d corpusDoc, sample int) *fw.Outcome {
 			if err == nil {
 				if fr.faults == 0 {
 					c.Count("fault_not_reached", 1)
-					continue // the reader stopped reading before the fault: nothing was swallowed
+					if d.Format == "srt" || d.Format == "webvtt" || d.Format == "ssa" || d.Format == "stl" {
+						// these readers have no reason to stop before the end of the stream: a reader that returns
+						// success without having asked for the bytes behind offset k has cut the document short, and a
+						// failure of the stream there goes unnoticed
+						cues := 0
+						if sub != nil {
+							cues = len(sub.Items)
+						}
+						o := fw.Bad(key, fmt.Sprintf("%x", d.Data), "%s reader: the stream was set to fail at offset %d of %d, but the reader returned %d cues and a nil error without ever reading that far: it stops before the end of the document, so a failure of the stream behind that point is never reported", d.Format, k, n, cues)
+						return &o
+					}
+					continue // (TTML stops at the end of the root element, the demultiplexer at its own pace)
 				}
 				cues := 0
 				if sub != nil {
@@ -553,6 +564,15 @@ func c18Run(c *fw.Ctx) fw.Outcome {
 		d := genDoc(c.R, format, false)
 		if c.Idx >= nDocs-6 {
 			d = bigDoc(c.R, format)
+		} else if (format == "srt" || format == "webvtt" || format == "ssa") && (c.Idx/6)%2 == 1 {
+			// two files joined by a DOS tool: an end-of-file mark (Ctrl-Z) on a line of its own in the middle; the
+			// document goes on behind it, and so do the faults that have to be reported
+			if i := bytes.IndexByte(d.Data[len(d.Data)/3:], '\n'); i >= 0 {
+				at := len(d.Data)/3 + i + 1
+				d.Data = append(append(append([]byte(nil), d.Data[:at]...), "\x1a\n"...), d.Data[at:]...)
+				d.Origin += ", Ctrl-Z in the middle"
+				c.Count("documents_with_a_dos_eof_mark", 1)
+			}
 		}
 		if o := c18ReadFaults(c, d, 300); o != nil {
 			return *o
